@@ -215,7 +215,8 @@ func (w *renderer) close(s string) syntax.Position {
 }
 
 // ---- precedence (doc/spec.md, "Operators": lowest to highest) ----
-//   or | and | not | comparisons (non-associative) | '|' | '^' | '&' | << >> | + - | * / // % | unary + - ~ | primary
+//
+//	or | and | not | comparisons (non-associative) | '|' | '^' | '&' | << >> | + - | * / // % | unary + - ~ | primary
 const (
 	precLowest  = -1 // conditional expression, lambda
 	precOr      = 0
